@@ -1190,6 +1190,9 @@ class Engine:
         return self.index(st, bv, idx, node)
 
     def index(self, st, bv, idx, node):
+        if isinstance(bv, V) and type(bv.t) is type(Key) and "getitem" in self.contract.externals:
+            # subscript of an opaque value (an array): the contract names what it means
+            return self.external(st, "getitem", [bv, idx], node, {})
         if isinstance(bv, PyConst):
             if isinstance(idx, V) and z3.is_int_value(z3.simplify(idx.term)):
                 val = bv.val[z3.simplify(idx.term).as_long()]
